@@ -82,7 +82,7 @@ Cuts(fs) ==
   LET raw == UNION { { Total(fs, k - 1), Total(fs, k - 1) + 1, Total(fs, k - 1) + 8, Total(fs, k - 1) + 9, Total(fs, k - 1) + 10,
                        Total(fs, k - 1) + 9 + fs[k].L - 1, Total(fs, k - 1) + 9 + fs[k].L,
                        Total(fs, k) - 1, Total(fs, k) } : k \in 1..Len(fs) }
-  IN { c \in raw : c >= 0 /\ c <= Total(fs, Len(fs)) }
+  IN IF Tier = "thorough" /\ Len(fs) > 1 THEN 0..Total(fs, Len(fs)) ELSE { c \in raw : c >= 0 /\ c <= Total(fs, Len(fs)) }
 
 (* ------------------------------------------------------------------ the type specific parsers: "frame" | "error" | "either" *)
 Parse(f) ==
